@@ -5,6 +5,8 @@ class, so aliases and closures evaluated inside PRISM.cost are covered too): inp
 the output is compared with the published relation evaluated by refmodel, inputs must be bit-identical
 afterwards.  The workload adds the metamorphic probes (elementwise, aliases, weak limit).
 """
+import copy
+
 import numpy as np
 
 import pyPRISM
@@ -210,6 +212,25 @@ def run_case(ctx, case):
         o_fresh = np.array(cf.calculate(np.array(r), np.array(gam)), dtype=float)
         if not np.array_equal(o_reuse, o_fresh, equal_nan=True):
             ctx.violation('closure:result-depends-on-earlier-calls', '%s(hc=%s): an object evaluated before with another potential gives a different result than a fresh object' % (cname, hc))
+        # --- the public attributes are the closure's whole state: the flag switched on an existing object, and a shallow copy
+        #     given its own potential / contact distance, are judged by the contract against what they hold at the call
+        ctx.hook('flag_toggled_on_existing_object')
+        c.apply_hard_core = not hc
+        o_tog = np.array(c.calculate(np.array(r), np.array(gam)), dtype=float)
+        ct = getattr(pyPRISM.closure, cname)(apply_hard_core=not hc)
+        ct.sigma, ct.potential = c.sigma, np.array(u_new)
+        if not np.array_equal(o_tog, np.array(ct.calculate(np.array(r), np.array(gam)), dtype=float), equal_nan=True):
+            ctx.violation('closure:flag-change-on-object-ignored', '%s: after apply_hard_core was set to %s on an existing object it evaluates differently from an object constructed with that flag' % (cname, not hc))
+        c.apply_hard_core = hc
+        cc = copy.copy(fresh())
+        cc.potential = np.array(u_new)
+        cc.sigma = sigma * float(rng.choice([0.8, 1.2]))
+        ctx.hook('shallow_copy_probe')
+        o_cc = np.array(cc.calculate(np.array(r), np.array(gam)), dtype=float)
+        cf2 = fresh()
+        cf2.potential, cf2.sigma = np.array(u_new), cc.sigma
+        if not np.array_equal(o_cc, np.array(cf2.calculate(np.array(r), np.array(gam)), dtype=float), equal_nan=True):
+            ctx.violation('closure:shallow-copy-evaluates-with-original-state', '%s(hc=%s): a copy.copy of a closure given its own potential and sigma evaluates differently from a fresh object holding the same' % (cname, hc))
         # --- elementwise: permutation, subsample, one element at a time
         ctx.hook('elementwise_probe')
         perm = rng.permutation(L)
